@@ -229,7 +229,20 @@ func schemeChanged(a, b *etree.Element) bool {
 // and the two documents (not off the generator that produced them); "none" = no known cause.
 func applyKey(old, new *etree.Document, ops []patchOp, why string) string {
 	cause := "none"
+	cls := strings.SplitN(why, " ", 2)[0]
+	// the operation that could not be applied, when there is one
+	failing := -1
+	if i := strings.Index(why, "(operation "); i >= 0 {
+		fmt.Sscanf(why[i:], "(operation %d:", &failing)
+	}
+	positionalRemove := func(op patchOp) bool {
+		n := len(op.Steps)
+		return op.Kind == "remove" && op.Attr == "" && op.Steps[n-1].Kind == 2 && (n < 2 || op.Steps[n-2].Tag != "SegmentTimeline")
+	}
 	switch {
+	case (cls == "ambiguous" || cls == "no-match") && failing >= 0 && failing < len(ops) && !positionalRemove(ops[failing]) && movedElement(ops):
+		// an operation with an attribute-form selector fails while an element with the same address is both added and removed
+		cause = "moved-element"
 	case idlessRemove(ops):
 		cause = "idless-remove"
 	case movedElement(ops):
